@@ -556,10 +556,13 @@ var checkC16 = def("C16/interleave", func(c ilCase) error {
 			hadMoveTime = true
 		}
 	}
-	if hadMoveTime && !alive {
+	// (ungated scripts only: with a gate in play a search may still be waiting for the harness itself)
+	if hadMoveTime && !alive && !c.Gated {
 		var left string
 		for w := 0; w < 40; w++ { // up to 400 ms
 			time.Sleep(10 * time.Millisecond)
+			collect(0)
+			releaseAll()
 			if left = goroutinesInside("github.com/herohde/morlock/pkg/engine/uci."); left == "" && w >= 6 {
 				break
 			}
